@@ -4,6 +4,7 @@ import (
 	"bytes"
 	"errors"
 	"fmt"
+	"math"
 	"time"
 
 	"github.com/btcsuite/btcd/btcec/v2"
@@ -390,11 +391,22 @@ func (m *MPPayment) SentAmt() (lnwire.MilliSatoshi, lnwire.MilliSatoshi) {
 
 		// The attempt was not failed, meaning the amount was
 		// potentially sent to the receiver.
-		sent += h.Route.ReceiverAmt()
+		sent = addMsatSaturating(sent, h.Route.ReceiverAmt())
 		fees += h.Route.TotalFees()
 	}
 
 	return sent, fees
+}
+
+// addMsatSaturating returns a+b, or the largest representable amount if the
+// sum does not fit. The sums are compared against the payment amount, so they
+// must never wrap around to a small value.
+func addMsatSaturating(a, b lnwire.MilliSatoshi) lnwire.MilliSatoshi {
+	if a > math.MaxUint64-b {
+		return math.MaxUint64
+	}
+
+	return a + b
 }
 
 // InFlightHTLCs returns the HTLCs that are still in-flight, meaning they have
@@ -827,9 +839,10 @@ func verifyAttempt(payment *MPPayment, attempt *HTLCAttemptInfo) error {
 
 	// Ensure we aren't sending more than the total payment amount.
 	sentAmt, _ := payment.SentAmt()
-	if sentAmt+amt > payment.Info.Value {
+	attempted := addMsatSaturating(sentAmt, amt)
+	if attempted > payment.Info.Value {
 		return fmt.Errorf("%w: attempted=%v, payment amount=%v",
-			ErrValueExceedsAmt, sentAmt+amt, payment.Info.Value)
+			ErrValueExceedsAmt, attempted, payment.Info.Value)
 	}
 
 	// An attempt ID identifies exactly one attempt of the payment. Storing
